@@ -274,11 +274,132 @@ def format_pairs(rep):
                                             "names) on one pid" % len(fmts)}
 
 
+def triple_core():
+    import unicodedata
+    nfc = unicodedata.normalize("NFC", "caf\u00e9")
+    return ["a", "ab", "abc", "b", "bc", "c", "A", "a/b", "../a", "a_delete", nfc, unicodedata.normalize("NFD", nfc),
+            hashlib.sha256(b"a").hexdigest(), "a" + DEFAULT_NS[:6]]
+
+
+def _triple_first(i):
+    """THREE identifiers at once: x = the i-th element of the core, every ordered pair (y, z) of two others.  One object is
+    shared by all three, each has a document (formats chosen so that pid + format coincide wherever one identifier is a prefix
+    of another); after every mutating step on one identifier the other two must read exactly what a three-entry model says."""
+    from hashstore.filehashstore import FileHashStore
+    core = triple_core()
+    x = core[i]
+    root = os.path.join(common.scratch(), "c18-tri-%d" % i)
+    inp = {}
+    for k, v in (("A", A), ("B", B), ("D1", D1), ("D2", D2)):
+        inp[k] = os.path.join(common.scratch(), "c18tin_%s" % k)
+        with open(inp[k], "wb") as f:
+            f.write(v)
+    docs = {"D1": D1, "D2": D2}
+    cidA = hashlib.sha256(A).hexdigest()
+    res, n = [], 0
+    import shutil
+
+    def fmt_for(p_, others):
+        # a format that makes pid + format equal to (longer pid) + "c" when p_ is a proper prefix of another identifier
+        for o in others:
+            if o.startswith(p_) and len(o) > len(p_):
+                return o[len(p_):] + "c"
+        return "c"
+
+    for y in core:
+        for z in core:
+            if len({x, y, z}) < 3:
+                continue
+            n += 1
+            shutil.rmtree(root, ignore_errors=True)
+            store = FileHashStore(common.props(root))
+            ids = (x, y, z)
+            fmts = {p_: fmt_for(p_, [o for o in ids if o != p_]) for p_ in ids}
+            model = {}
+            errs = []
+
+            def audit(step):
+                for p_ in ids:
+                    want = model.get(p_)
+                    try:
+                        st = store.retrieve_object(p_)
+                        got = st.read()
+                        st.close()
+                    except Exception as e:  # noqa: BLE001
+                        got = None
+                    if (want[0] if want else None) != got:
+                        errs.append("after %s: an identifier that was not operated on reads other object bytes (or none / some) than before" % step)
+                        return
+                    try:
+                        m = store.retrieve_metadata(p_, fmts[p_])
+                        gm = m.read()
+                        m.close()
+                    except Exception as e:  # noqa: BLE001
+                        gm = None
+                    if (want[1] if want else None) != gm:
+                        errs.append("after %s: an identifier that was not operated on reads another document (or none / some) than before" % step)
+                        return
+
+            try:
+                for k, p_ in enumerate(ids):
+                    store.store_object(p_, inp["A"])
+                    d = "D1" if k % 2 == 0 else "D2"
+                    store.store_metadata(p_, inp[d], fmts[p_])
+                    model[p_] = (A, docs[d])
+                    audit("store of #%d" % k)
+                store.delete_object(x)
+                model.pop(x)
+                audit("delete_object(first)")
+                store.tag_object(x, cidA)
+                model[x] = (A, None)
+                audit("re-tag of the first")
+                store.delete_metadata(y, fmts[y])
+                model[y] = (A, None)
+                audit("delete_metadata(second, format)")
+                store.store_metadata(y, inp["D1"], fmts[y])
+                model[y] = (A, D1)
+                store.delete_metadata(z)
+                model[z] = (A, None)
+                audit("delete_metadata(third)")
+                store.delete_object(y)
+                model.pop(y)
+                audit("delete_object(second)")
+                store.delete_object(z)
+                model.pop(z)
+                audit("delete_object(third)")
+                store.delete_object(x)
+                model.pop(x)
+                audit("delete_object(first) again")
+                left = [r for r, b in snapshot(root).items() if b is not None and r != "hashstore.yaml" and "/tmp" not in r]
+                if left:
+                    errs.append("files remain after all three identifiers were deleted")
+            except Exception as e:  # noqa: BLE001
+                errs.append("script raised %s" % type(e).__name__)
+            for e in sorted(set(errs)):
+                res.append(({"kind": "triple", "what": e}, {"ids": [repr(v)[:40] for v in ids], "formats": [fmts[p_] for p_ in ids]}))
+    shutil.rmtree(root, ignore_errors=True)
+    return n, res
+
+
+def triples(rep):
+    core = triple_core()
+    n = 0
+    for cnt, res in pmap(_triple_first, list(range(len(core)))):
+        n += cnt
+        for sig, det in res:
+            rep.violation(sig, det)
+    rep.coverage["triples"] = {"core_identifiers": len(core), "scripts": n,
+                               "rule": "all ordered triples of distinct identifiers of a %d-element core (prefix chains a / ab / abc and b / bc, "
+                                       "case variant, path-like, marker-like, NFC / NFD, digest-like, pid + namespace prefix), one shared "
+                                       "object, documents under concatenation-colliding formats, model checked after each of 10 steps" % len(core)}
+
+
 def main(tier):
     global TIER
     TIER = tier
     rep = common.Report("C18", tier, "exploration")
     format_pairs(rep)
+    triples(rep)
     ids = identifiers()
     n = 0
     for cnt, res in pmap(_first, list(range(len(ids)))):
